@@ -244,7 +244,22 @@ fn check_interp<A: Attr>(t: [(f32, f32); 3], zi: usize, r: &mut Report, fam: &st
         let l2 = ((p[1][0] - p[0][0]) * (c[1] - p[0][1]) - (p[1][1] - p[0][1]) * (c[0] - p[0][0])) / area2;
         let l = [1.0 - l1 - l2, l1, l2];
         let zp: f64 = (0..3).map(|k| l[k] * zf[k]).sum();
-        if sliver { continue; }
+        if sliver {
+            // ... except that at a centre unambiguously inside the sliver (more than 0.001 px from every edge) the plane value is a
+            // convex combination of the vertex values, however ill-conditioned the plane: depth and attributes must stay within
+            // the range of the vertex values (plus the stated 0.5 %)
+            let inside = (0..3).all(|k| { let e = ((p[(k + 1) % 3][0] - p[(k + 2) % 3][0]).powi(2) + (p[(k + 1) % 3][1] - p[(k + 2) % 3][1]).powi(2)).sqrt(); l[k] * area2.abs() / e > 0.001 });
+            if inside {
+                r.h("sliver-fragment-inside: hull judged");
+                if (pos[2] as f64) < zmin - ztol || (pos[2] as f64) > zmax + ztol { r.violation(key("depth-hull"), format!("pixel ({x},{y}), centre inside the sliver: depth {} outside the range {zmin}..{zmax} of the vertex depths (tol {ztol:.2e})", pos[2]), case()); return; }
+                for ci in 0..A::N {
+                    let (lo, hi) = (ratio.iter().map(|q| q[ci]).fold(f64::MAX, f64::min), ratio.iter().map(|q| q[ci]).fold(f64::MIN, f64::max));
+                    let tol = 0.005 * (hi - lo) + 1e-5 * hi.abs().max(lo.abs());
+                    if var[ci] < lo - tol || var[ci] > hi + tol { r.violation(key("attr-hull"), format!("pixel ({x},{y}), centre inside the sliver, component {ci}: value {} outside the range {lo}..{hi} of the vertex values (tol {tol:.2e})", var[ci]), case()); return; }
+                }
+            }
+            continue;
+        }
         r.margin("depth(0.5% stated)", (pos[2] as f64 - zp).abs(), ztol);
         if (pos[2] as f64 - zp).abs() > ztol { r.violation(key("depth"), format!("pixel ({x},{y}): depth {} but the plane through the vertex depths gives {zp} (tol {ztol:.2e})", pos[2]), case()); return; }
         for ci in 0..A::N {
